@@ -16,6 +16,9 @@ import (
 // DustDenom is a second denomination some accounts hold (fees must still be paid in the stake denom).
 const DustDenom = "dust"
 
+// ThirdDenom is held by some accounts and never moved.
+const ThirdDenom = "aaa"
+
 func isMultiType(t string) bool { return t == "multi2" || t == "multi3" || t == "nested" }
 
 // outside: account i is not part of the genesis file
@@ -53,6 +56,7 @@ func BuildInitChain(kr *Keyring, g *Genesis) abci.RequestInitChain {
 	var accounts authTypes.Accounts
 	total := sdk.ZeroInt()
 	dustTotal := sdk.ZeroInt()
+	thirdTotal := sdk.ZeroInt()
 	for i := range g.Balances {
 		if g.outside(i) {
 			continue
@@ -65,6 +69,10 @@ func BuildInitChain(kr *Keyring, g *Genesis) abci.RequestInitChain {
 		if i < len(g.Dust) && g.Dust[i] > 0 {
 			coins = coins.Add(sdk.NewCoins(sdk.NewCoin(DustDenom, sdk.NewInt(g.Dust[i]))))
 			dustTotal = dustTotal.Add(sdk.NewInt(g.Dust[i]))
+		}
+		if i < len(g.Third) && g.Third[i] > 0 {
+			coins = coins.Add(sdk.NewCoins(sdk.NewCoin(ThirdDenom, sdk.NewInt(g.Third[i]))))
+			thirdTotal = thirdTotal.Add(sdk.NewInt(g.Third[i]))
 		}
 		accounts = append(accounts, &authTypes.BaseAccount{Address: a.Addr, Coins: coins, PubKey: a.Pub})
 		total = total.Add(sdk.NewInt(g.Balances[i]))
@@ -87,6 +95,9 @@ func BuildInitChain(kr *Keyring, g *Genesis) abci.RequestInitChain {
 		ag.Supply = sdk.NewCoins(sdk.NewCoin(sdk.DefaultStakeDenom, total))
 		if dustTotal.IsPositive() {
 			ag.Supply = ag.Supply.Add(sdk.NewCoins(sdk.NewCoin(DustDenom, dustTotal)))
+		}
+		if thirdTotal.IsPositive() {
+			ag.Supply = ag.Supply.Add(sdk.NewCoins(sdk.NewCoin(ThirdDenom, thirdTotal)))
 		}
 	}
 	pg := posTypes.GenesisState{
